@@ -209,6 +209,28 @@ def r06_1(ck):
             'the readers wire a declared port that the topology omits to '
             '(port,), but inverse_topology only visits topology keys: an '
             'update for such a port is silently dropped', wt['loop'])
+    # under a glob, the children listed are those of the ADDRESSED node
+    for fi in readers:
+        t = tables.get(fi.qual)
+        if not t:
+            continue
+        for lp in A.walk_no_nested(t['loop']):
+            if isinstance(lp, ast.For) and lp is not t['loop'] and \
+                    '.inner.items()' in A.unparse(lp.iter):
+                base = lp.iter.func.value.value
+                ok = isinstance(base, ast.Name) and any(
+                    isinstance(d.value, ast.Call) and A.call_name(
+                        d.value) in ('get_path', 'outer_path',
+                                     '_establish_path')
+                    for d in reaching(fi.node).at(lp, base.id)) \
+                    if isinstance(base, ast.Name) else False
+                ck.require(ok, 'R06.1', fi, lp,
+                           'a glob lists the children of the node its '
+                           'topology entry addresses',
+                           'a glob port lists the children of `%s` instead '
+                           'of the node addressed by its topology entry: '
+                           'the port reads other nodes than its updates '
+                           'reach' % A.unparse(base), lp)
     # readers resolve relative to self
     for fi in readers:
         t = tables.get(fi.qual)
@@ -296,6 +318,18 @@ def r06_2(ck):
                'colliding values are kept as a two-element _multi_update '
                'list (existing first, new second)',
                'deep_merge_multi_update no longer wraps colliding values')
+    rec = [c for c in A.calls_in(dm.node, dm.node.name)]
+    other = [c for c in A.calls_in(dm.node, ('deep_merge',
+                                             'deep_merge_check'))]
+    ck.require(bool(rec) and not other, 'R06.2', dm,
+               other[0] if other else dm.node.name,
+               'nested dictionaries are merged by the same collision-'
+               'preserving function (recursion)',
+               'below the first level deep_merge_multi_update merges with '
+               '%s: colliding updates of two ports to one nested variable '
+               'overwrite each other' % (A.call_name(other[0]) if other
+                                         else 'nothing'),
+               other[0] if other else None)
     apps = [c for c in A.calls_in(dm.node, 'append')]
     ck.require(bool(apps), 'R06.2', dm, dm.node.name,
                'a third colliding value is appended to the list',
@@ -501,6 +535,29 @@ def r06_5(ck):
                       for x in ast.walk(v))
         ok = (not has_add) or (isinstance(v, ast.Call) and A.call_name(v)
                                == 'normalize_path')
+        # order of the composition: base first, child key last
+        comp = v.args[0] if isinstance(v, ast.Call) and v.args else v
+        parts = []
+
+        def flat(x):
+            if isinstance(x, ast.BinOp) and isinstance(x.op, ast.Add):
+                flat(x.left)
+                flat(x.right)
+            else:
+                parts.append(x)
+        flat(comp)
+        if len(parts) >= 2:
+            first_ok = A.unparse(parts[0]) in ('outer', 'inner')
+            childs = [i for i, x in enumerate(parts)
+                      if isinstance(x, ast.Tuple) and len(x.elts) == 1]
+            last_ok = not childs or childs == [len(parts) - 1]
+            ck.require(first_ok and last_ok, 'R06.5', f, d.stmt,
+                       'composition order: base (outer) + topology path + '
+                       'child key',
+                       'the target path is composed as %s: the reader '
+                       'resolves base / topology path / child in that '
+                       'order, so the port writes to a different node than '
+                       'it reads' % A.unparse(comp), d.stmt)
         based = 'outer' in A.names_in(v) or 'inner' in A.names_in(v)
         ck.require(based, 'R06.5', f, d.stmt,
                    'the target path is composed from the place the update '
@@ -607,3 +664,20 @@ def r06_7(ck, rule='R06.7'):
                    'process (a process that reuses its update applies the '
                    'first port again and again)' % A.unparse(x), c)
     ck.floor(rule, n, 3, 'merges of update dictionaries into the inverse')
+    dci = ck.fn('deep_copy_internal', 'library.dict_utils')
+    p0 = A.params_of(dci.node)[0]
+    ok = False
+    for r in A.walk_no_nested(dci.node):
+        if isinstance(r, ast.Return) and isinstance(r.value, ast.DictComp):
+            dc = r.value
+            g = dc.generators[0]
+            ok = A.unparse(g.iter) == p0 + '.items()' and not g.ifs and \
+                isinstance(dc.value, ast.Call) and A.call_name(
+                    dc.value) == dci.node.name and A.unparse(
+                    dc.key) == A.unparse(g.target.elts[0]) and A.unparse(
+                    A.arg_of(dc.value, 0)) == A.unparse(g.target.elts[1])
+    ck.require(ok, rule, dci, dci.node.name,
+               'deep_copy_internal copies the dictionary structure at every '
+               'depth (recursive call on every value)',
+               'deep_copy_internal no longer recurses into every value: '
+               'deeper dictionaries stay shared with the original')
